@@ -1260,6 +1260,16 @@ impl<'comments> Formatter<'comments> {
             UntypedExpr::String { value, .. } if Some(value) == default_label.as_ref() => {
                 keyword.to_doc()
             }
+            // NOTE: a label that begins with a string literal would be read as that string
+            // alone (and a byte-array literal as a string): it only parses between parentheses.
+            _ if !matches!(label, UntypedExpr::String { .. }) && begins_with_string_literal(label) => {
+                keyword
+                    .to_doc()
+                    .append(" (")
+                    .append(self.expr(label, false))
+                    .append(")")
+                    .group()
+            }
             _ => keyword
                 .to_doc()
                 .append(" ")
@@ -2355,6 +2365,20 @@ impl<'a> Documentable<'a> for &'a BinOp {
             BinOp::ModInt => "%",
         }
         .to_doc()
+    }
+}
+
+fn begins_with_string_literal(expr: &UntypedExpr) -> bool {
+    match expr {
+        UntypedExpr::String { .. }
+        | UntypedExpr::ByteArray {
+            preferred_format: ByteArrayFormatPreference::Utf8String,
+            ..
+        } => true,
+        UntypedExpr::BinOp { left, .. } => begins_with_string_literal(left),
+        UntypedExpr::PipeLine { expressions, .. } => begins_with_string_literal(expressions.first()),
+        UntypedExpr::TraceIfFalse { value, .. } => begins_with_string_literal(value),
+        _ => false,
     }
 }
 
